@@ -44,7 +44,7 @@ def cells(tier):
             levels = ("base", "scenario", "both") if channel == "register" else ("scenario", "both")
             for level in levels:
                 out.append((channel, kind, level))
-        for kind in ("starttime", "stoptime", "dt"):
+        for kind in ("starttime", "stoptime", "dt", "finegrid"):
             if channel in ("run_step",):
                 continue                      # per-step settings carry no run specs
             out.append((channel, kind, "scenario"))
@@ -117,6 +117,10 @@ def run_cell(cell, mode, env=None):
         if k in kinds:
             later.setdefault("runspecs", {})[k] = v
             rs[k] = v
+    if "finegrid" in kinds:
+        # a start time with more decimals than dt, the stop time on that grid (0.5, 1.5, 2.5; 2.5 is the value a half-even rounding to dt's precision would move)
+        later.setdefault("runspecs", {}).update({"starttime": 0.5, "stoptime": 2.5})
+        rs.update({"starttime": 0.5, "stoptime": 2.5})
     if channel == "register":
         scen_a = later
         later = {}
